@@ -63,10 +63,11 @@ def initStore (files : List FileEnt) : Store :=
 
 def showStore (st : Store) : String :=
   if st.isEmpty then "-" else
-  ",".intercalate (st.map fun | .padding => "P" | .data bs => hex bs)
+  ",".intercalate (st.map fun | .padding => "P" | .data [] => "_" | .data bs => hex bs)
 
 def parseStore? (s : String) : Option Store :=
-  (commaList s).mapM fun t => if t = "P" then some .padding else (unhex? t).map .data
+  (commaList s).mapM fun t =>
+    if t = "P" then some .padding else if t = "_" then some (.data []) else (unhex? t).map .data
 
 def showW : WOut → String
   | .ok st n => s!"ok n={n} files={showStore st}"
